@@ -696,6 +696,290 @@ example : mergeB ⟨3, 2, 0, none, none⟩ [0] (some [10, 20]) []
 
 /-! ## non-vacuity: concrete histories where every hypothesis holds and the conclusions bite -/
 
+
+/-! ## the greedy distance filter in more detail (`find_candidate_indices`) -/
+
+/-- the greedy pass only ever appends: its result is the kept list followed by a sublist of the rest -/
+theorem greedyAux_eq_append (md : Nat) : ∀ (rest kept : List Peak),
+    ∃ l, l.Sublist rest ∧ greedyAux md kept rest = kept ++ l
+  | [], kept => ⟨[], List.Sublist.refl _, by simp [greedyAux]⟩
+  | x :: xs, kept => by
+      unfold greedyAux
+      split
+      · obtain ⟨l, hl, he⟩ := greedyAux_eq_append md xs (kept ++ [x])
+        exact ⟨x :: l, List.cons_sublist_cons.mpr hl, by rw [he]; simp⟩
+      · obtain ⟨l, hl, he⟩ := greedyAux_eq_append md xs kept
+        exact ⟨l, hl.trans (List.sublist_cons_self x xs), he⟩
+
+/-- `filter_points_indices` returns the candidates it keeps in their original (score) order -/
+theorem filterPoints_sublist (md : Nat) (xs : List Peak) : (filterPoints md xs).Sublist xs := by
+  unfold filterPoints
+  split
+  · exact List.Sublist.refl _
+  · obtain ⟨l, hl, he⟩ := greedyAux_eq_append md xs []
+    rw [he]; simpa using hl
+
+/-- candidates handed over by descending score are reported by descending score -/
+theorem filterPoints_sorted_desc (md : Nat) (xs : List Peak)
+    (h : xs.Pairwise (fun a b => b.score ≤ a.score)) :
+    (filterPoints md xs).Pairwise (fun a b => b.score ≤ a.score) :=
+  List.Pairwise.sublist (filterPoints_sublist md xs) h
+
+/-- `min_distance = 0` switches the filter off: every candidate is kept -/
+theorem filterPoints_zero (xs : List Peak) : filterPoints 0 xs = xs := by
+  simp [filterPoints]
+
+/-- the best candidate is not only kept, it is reported first -/
+theorem filterPoints_head_first (md : Nat) (x : Peak) (xs : List Peak) :
+    (filterPoints md (x :: xs)).head? = some x := by
+  unfold filterPoints
+  split
+  · rfl
+  · unfold greedyAux
+    simp only [List.all_nil, if_true]
+    obtain ⟨l, _, he⟩ := greedyAux_eq_append md xs ([] ++ [x])
+    rw [he]; simp
+
+/-- maximality of the greedy pass: a candidate that is not reported is too close to a reported one -/
+theorem greedyAux_maximal (md : Nat) : ∀ (rest kept : List Peak) (x : Peak), x ∈ rest →
+    x ∈ greedyAux md kept rest ∨ ∃ k ∈ greedyAux md kept rest, far md x.pos k.pos = false
+  | y :: ys, kept, x, hx => by
+      unfold greedyAux
+      rcases List.mem_cons.mp hx with h | hx'
+      · rw [h]
+        split
+        · left; exact greedyAux_kept md ys _ _ (by simp)
+        · rename_i hall
+          apply Classical.byContradiction
+          intro hc
+          apply hall
+          apply List.all_eq_true.mpr
+          intro k hk
+          apply Classical.byContradiction
+          intro hf
+          exact hc (Or.inr ⟨k, greedyAux_kept md ys kept k hk, by simpa using hf⟩)
+      · split
+        · exact greedyAux_maximal md ys _ x hx'
+        · exact greedyAux_maximal md ys _ x hx'
+
+/-- maximality of `filter_points_indices`: every rejected candidate lies within the minimum distance of a reported one -/
+theorem filterPoints_maximal (md : Nat) (xs : List Peak) (x : Peak) (hx : x ∈ xs) :
+    x ∈ filterPoints md xs ∨ ∃ k ∈ filterPoints md xs, far md x.pos k.pos = false := by
+  unfold filterPoints
+  split
+  · exact Or.inl hx
+  · exact greedyAux_maximal md xs [] x hx
+
+/-- a list that is already pairwise separated passes the greedy pass unchanged -/
+theorem greedyAux_of_far (md : Nat) : ∀ (l kept : List Peak), (kept ++ l).Pairwise (FarP md) →
+    greedyAux md kept l = kept ++ l
+  | [], kept, _ => by simp [greedyAux]
+  | x :: xs, kept, h => by
+      unfold greedyAux
+      have h' : ((kept ++ [x]) ++ xs).Pairwise (FarP md) := by simpa using h
+      have hall : kept.all (fun k => far md x.pos k.pos) = true := by
+        apply List.all_eq_true.mpr
+        intro k hk
+        have := (List.pairwise_append.mp h).2.2 k hk x (by simp)
+        unfold FarP at this; rw [far_comm]; exact this
+      rw [if_pos hall, greedyAux_of_far md xs _ h']; simp
+
+/-- filtering is idempotent: filtering a reported list again changes nothing -/
+theorem filterPoints_idempotent (md : Nat) (xs : List Peak) :
+    filterPoints md (filterPoints md xs) = filterPoints md xs := by
+  by_cases h : md = 0
+  · simp [filterPoints, h]
+  · have hp := filterPoints_pairwise (md := md) (by omega) xs
+    generalize filterPoints md xs = ys at hp
+    unfold filterPoints; rw [if_neg h]
+    simpa using greedyAux_of_far md ys [] (by simpa using hp)
+
+/-- the greedy pass over a concatenation is the pass over the second part started from the result of the first -/
+theorem greedyAux_append (md : Nat) (a : List Peak) : ∀ (kept b : List Peak),
+    greedyAux md kept (a ++ b) = greedyAux md (greedyAux md kept a) b := by
+  induction a with
+  | nil => intro kept b; simp [greedyAux]
+  | cons x xs ih =>
+    intro kept b
+    simp only [List.cons_append, greedyAux]
+    by_cases hc : (kept.all fun k => far md x.pos k.pos) = true
+    · simp only [if_pos hc]; exact ih _ _
+    · simp only [if_neg hc]; exact ih _ _
+
+/-- monotone in the candidate list: the result for a prefix of the candidates is a prefix of the result -/
+theorem filterPoints_prefix_mono (md : Nat) (a b : List Peak) (h : a <+: b) :
+    filterPoints md a <+: filterPoints md b := by
+  obtain ⟨t, rfl⟩ := h
+  unfold filterPoints
+  split
+  · exact List.prefix_append _ _
+  · rw [greedyAux_append]
+    obtain ⟨l, _, he⟩ := greedyAux_eq_append md t (greedyAux md [] a)
+    rw [he]; exact List.prefix_append _ _
+
+/-- monotone in `number_of_peaks` (deterministic top-k): the peaks kept for a smaller limit are a prefix of
+those kept for a larger one -/
+theorem update_numPeaks_prefix (n n' md mb : Nat) (lo hi : Option Int) (hn : n ≤ n') (st cands : List Peak) :
+    update ⟨n, md, mb, lo, hi⟩ st cands none <+: update ⟨n', md, mb, lo, hi⟩ st cands none := by
+  unfold update
+  apply filterPoints_prefix_mono
+  apply List.IsPrefix.filterMap
+  simp only [selectTopk, topkSort]
+  have hk : min (st ++ cands).length n ≤ min (st ++ cands).length n' := by omega
+  generalize min (st ++ cands).length n = k at hk
+  generalize min (st ++ cands).length n' = k' at hk
+  generalize sortDesc _ = l
+  rw [show l.take k = (l.take k').take k by rw [List.take_take, Nat.min_eq_left hk]]
+  exact List.take_prefix _ _
+
+/-- a point is never farther than the minimum distance from itself -/
+theorem far_irrefl (md : Nat) (p : List Int) : far md p p = false := by
+  have h0 : d2 p p = 0 := by
+    induction p with
+    | nil => rfl
+    | cons a p ih => simp [d2, ih]
+  unfold far; rw [h0, decide_eq_false_iff_not]
+  intro h
+  have h1 : (0 : Int) < (md : Int) + 1 := by omega
+  exact Int.lt_irrefl 0 (Int.lt_of_lt_of_le (Int.mul_pos h1 h1) h)
+
+/-- with a positive minimum distance the reported translations are pairwise distinct -/
+theorem filterPoints_distinct_positions {md : Nat} (hmd : 0 < md) (xs : List Peak) :
+    (filterPoints md xs).Pairwise (fun a b => a.pos ≠ b.pos) :=
+  (filterPoints_pairwise hmd xs).imp (by
+    intro a b h he
+    unfold FarP at h
+    rw [he, far_irrefl] at h
+    exact Bool.noConfusion h)
+
+/-- adding the same offset to two translations does not change their squared distance -/
+theorem d2_shift (o : List Int) : ∀ (p q : List Int), p.length = o.length → q.length = o.length →
+    d2 (List.zipWith (· + ·) p o) (List.zipWith (· + ·) q o) = d2 p q := by
+  induction o with
+  | nil => intro p q hp hq; cases p <;> cases q <;> simp_all [d2]
+  | cons c o ih =>
+    intro p q hp hq
+    cases p with
+    | nil => simp at hp
+    | cons a p =>
+      cases q with
+      | nil => simp at hq
+      | cons b q =>
+        simp only [List.zipWith_cons_cons, d2]
+        rw [ih p q (by simpa using hp) (by simpa using hq)]
+        have : a + c - (b + c) = a - b := by omega
+        rw [this]
+
+/-- `merge(offset=…)`: shifting two peaks by the tile offset preserves the distance test between them -/
+theorem shiftPeak_preserves_far (md : Nat) (o : List Int) (a b : Peak)
+    (ha : a.pos.length = o.length) (hb : b.pos.length = o.length) :
+    far md (shiftPeak (some o) a).pos (shiftPeak (some o) b).pos = far md a.pos b.pos := by
+  simp only [shiftPeak, far, d2_shift o _ _ ha hb]
+
+example : (⟨[1, 2], 0, 5⟩ : Peak).pos.length = ([10, 20] : List Int).length := rfl
+
+/-- `d2 p p = 0` -/
+theorem d2_self (p : List Int) : d2 p p = 0 := by
+  induction p with
+  | nil => rfl
+  | cons a p ih => simp [d2, ih]
+
+/-- whatever the history, with a positive minimum distance no translation is reported twice -/
+theorem peaks_distinct_positions (cfg : Cfg) (strat : Strategy) (subs : List Sub) (hmd : 0 < cfg.minDist) :
+    (run cfg strat subs).Pairwise (fun a b => a.pos ≠ b.pos) :=
+  (peaks_pairwise_far cfg strat subs hmd).imp (by
+    intro a b h he
+    rw [he, d2_self] at h
+    have h1 : (0 : Int) < (cfg.minDist : Int) := by omega
+    exact Int.lt_irrefl 0 (Int.lt_trans (Int.mul_pos h1 h1) h))
+
+/-- a tile of extent `tile` placed at offset `o` lies inside the full volume `full` -/
+def tileFits : List Nat → List Nat → List Int → Prop
+  | t :: ts, f :: fs, o :: os => 0 ≤ o ∧ o + (t : Int) ≤ (f : Int) ∧ tileFits ts fs os
+  | [], [], [] => True
+  | _, _, _ => False
+
+/-- `merge(offset=…)`: a peak inside its tile, shifted by the tile offset, lies inside the full volume -/
+theorem shift_inBounds (tile : List Nat) : ∀ (full : List Nat) (o p : List Int), tileFits tile full o →
+    inBoundsI tile p = true → inBoundsI full (List.zipWith (· + ·) p o) = true := by
+  induction tile with
+  | nil => intro full o p hf hp; cases full <;> cases o <;> cases p <;> simp_all [tileFits, inBoundsI]
+  | cons t ts ih =>
+    intro full o p hf hp
+    cases full with
+    | nil => simp [tileFits] at hf
+    | cons f fs =>
+      cases o with
+      | nil => simp [tileFits] at hf
+      | cons o os =>
+        cases p with
+        | nil => simp [inBoundsI] at hp
+        | cons p ps =>
+          simp only [tileFits] at hf
+          simp only [inBoundsI, Bool.and_eq_true, decide_eq_true_eq] at hp
+          simp only [List.zipWith_cons_cons, inBoundsI, Bool.and_eq_true, decide_eq_true_eq]
+          exact ⟨⟨by omega, by omega⟩, ih fs os ps hf.2.2 hp.2⟩
+
+example : tileFits [2, 5] [10, 30] [8, 20] ∧ inBoundsI [2, 5] [1, 4] = true :=
+  ⟨by simp [tileFits], by decide⟩
+
+/-- `merge(offset=…)`: a pairwise separated list stays pairwise separated after the common shift -/
+theorem shift_preserves_pairwise_far (md : Nat) (o : List Int) (l : List Peak)
+    (hl : ∀ p ∈ l, p.pos.length = o.length) (h : l.Pairwise (FarP md)) :
+    (l.map (shiftPeak (some o))).Pairwise (FarP md) := by
+  rw [List.pairwise_map]
+  exact List.Pairwise.imp_of_mem (by
+    intro a b ha hb hab
+    unfold FarP
+    rw [shiftPeak_preserves_far md o a b (hl a ha) (hl b hb)]
+    exact hab) h
+
+/-- `_update` is maximal: a candidate selected by the top-k step that is not reported lies within the
+minimum distance of a reported peak -/
+theorem update_maximal (cfg : Cfg) (st cands : List Peak) (o : Option (List Nat)) (i : Nat) (x : Peak)
+    (hi : i ∈ selectTopk ((st ++ cands).map (·.score)) (min (st ++ cands).length cfg.nPeaks) o)
+    (hx : (st ++ cands)[i]? = some x) :
+    x ∈ update cfg st cands o ∨ ∃ k ∈ update cfg st cands o, far cfg.minDist x.pos k.pos = false := by
+  unfold update
+  apply filterPoints_maximal
+  exact List.mem_filterMap.mpr ⟨i, hi, hx⟩
+
+example : (0 : Nat) ∈ selectTopk ((([] : List Peak) ++ [(⟨[0], 0, 1⟩ : Peak)]).map Peak.score) (min 1 1) none := by decide
+
+/-- with the deterministic top-k, `_update` reports its peaks by descending score -/
+theorem update_sorted_desc (cfg : Cfg) (st cands : List Peak) :
+    (update cfg st cands none).Pairwise (fun a b => b.score ≤ a.score) := by
+  unfold update
+  apply filterPoints_sorted_desc
+  rw [List.pairwise_filterMap]
+  have hd : Desc (fun i => ((st ++ cands).map (·.score)).getD i 0)
+      (selectTopk ((st ++ cands).map (·.score)) (min (st ++ cands).length cfg.nPeaks) none) := by
+    unfold selectTopk topkSort sortDesc
+    exact List.Pairwise.sublist (List.take_sublist _ _) (sortDescL_desc _ _)
+  refine hd.imp ?_
+  intro i j hij b hb b' hb'
+  obtain ⟨hi, rfl⟩ := List.getElem?_eq_some_iff.mp hb
+  obtain ⟨hj, rfl⟩ := List.getElem?_eq_some_iff.mp hb'
+  beta_reduce at hij
+  rw [getD_map_score _ i hi, getD_map_score _ j hj] at hij
+  exact hij
+
+/-- boundary margin, per axis: a translation passing the margin test is at least `min_boundary_distance`
+from the lower face and strictly more than that from the upper end on every axis -/
+theorem inMargin_axis (mb : Nat) : ∀ (shape p : List Nat), inMargin mb shape p = true →
+    ∀ i (hs : i < shape.length) (hp : i < p.length), mb ≤ p[i] ∧ p[i] + mb < shape[i]
+  | s :: ss, x :: xs, h, i, hs, hp => by
+      simp only [inMargin, Bool.and_eq_true, decide_eq_true_eq] at h
+      cases i with
+      | zero => simp only [List.getElem_cons_zero]; omega
+      | succ j =>
+        simp only [List.getElem_cons_succ]
+        exact inMargin_axis mb ss xs h.2 j (by simpa using hs) (by simpa using hp)
+  | [], _, _, i, hs, _ => by simp at hs
+  | _ :: _, [], _, i, _, hp => by simp at hp
+
+example : inMargin 1 [4, 5] [1, 3] = true := by decide
+
 /-- a 2×5 array, two submissions, `min_distance = 1`, at most 3 peaks -/
 def exCfg : Cfg := ⟨3, 1, 0, none, none⟩
 def exA : Arr Int := ⟨[2, 5], #[5, 1, 7, 0, 2, 9, 3, 4, 1, 0]⟩
